@@ -255,9 +255,12 @@ class Ctx:
         self.fields = fields      # attr -> sym
         self.locs = locs          # name -> sym
         self.self_name = self_name
+        self.known = set()        # optionals known to hold a value on this path
 
     def copy(self):
-        return Ctx(self.unit, dict(self.fields), dict(self.locs), self.self_name)
+        c = Ctx(self.unit, dict(self.fields), dict(self.locs), self.self_name)
+        c.known = set(self.known)
+        return c
 
 
 class ClassUnit:
@@ -276,7 +279,6 @@ class ClassUnit:
         if not self.methods:
             raise Untranslatable('class %s not found in %s' % (cls, path))
         self.attr_types = attr_types          # python attr -> type
-        self.known_some = set()               # optionals known to hold a value at this point of an `and`
         self.expr_subst = {}                  # unparsed expression -> sym: reads of other components' state
         self.call_subst = []                  # [(suffix of the unparsed callee, handler)]: calls into other components
         self.callables = {}                   # python property -> (Lean call text, type): kept as calls, not inlined
@@ -357,9 +359,9 @@ class ClassUnit:
             left = self.ev(n.left, ctx, depth)
             for op, rn in zip(n.ops, n.comparators):
                 right = self.ev(rn, ctx, depth)
-                if isinstance(op, (ast.Is, ast.IsNot)) and len(n.ops) == 1 and ty_of(left) == 'optint' and ty_of(right) == 'none':
+                if isinstance(op, (ast.Is, ast.IsNot)) and len(n.ops) == 1 and ty_of(left).startswith('opt') and ty_of(right) == 'none':
                     e_ = ('var', '(%s).isSome' % pr(left), 'bool')
-                    self.known_some.add(pr(left))
+                    ctx.known.add(pr(left))
                     return e_ if isinstance(op, ast.IsNot) else ('not', e_)
                 if isinstance(op, (ast.Is, ast.IsNot)):
                     # `x is None` / `x is not None` with a statically typed x
@@ -373,7 +375,7 @@ class ClassUnit:
 
                 def unopt(v):
                     if v[0] == 'var' and v[2] == 'optint':
-                        if pr(v) not in self.known_some:
+                        if pr(v) not in ctx.known:
                             raise Untranslatable('comparison with a value that may be None')
                         return ('var', '((%s).getD 0)' % pr(v), 'int')
                     return v
@@ -388,13 +390,14 @@ class ClassUnit:
                 left = right
             return parts[0] if len(parts) == 1 else ('and', parts)
         if isinstance(n, ast.BoolOp):
-            saved = set(self.known_some)
+            saved = set(ctx.known)
             vals = []
             for v in n.values:
                 vals.append(self.truth(self.ev(v, ctx, depth)))
                 if not isinstance(n.op, ast.And):
-                    self.known_some = set(saved)
-            self.known_some = saved
+                    ctx.known = set(saved)
+            if not (isinstance(n.op, ast.And) and getattr(ctx, 'in_test', False)):
+                ctx.known = saved          # what an `and` establishes outlives it only as the test of an `if`
             return ('and' if isinstance(n.op, ast.And) else 'or', vals)
         if isinstance(n, ast.IfExp):
             return ('ite', self.truth(self.ev(n.test, ctx, depth)), self.ev(n.body, ctx, depth), self.ev(n.orelse, ctx, depth))
@@ -1319,7 +1322,10 @@ class ForeignClass:
 
 class EFn:
     def __init__(self, key, path, cls, py, lean, binders, fields, params, statement, defs, foreign=(), raise_calls=(), view=None,
-                 obj_types=None, event_attr='history', event_cls='PortfolioEvent'):
+                 obj_types=None, event_attr='history', event_cls='PortfolioEvent', action_calls=(), loop_bind=None, subst=()):
+        self.action_calls = list(action_calls)   # [(callee suffix, tag)]: calls recorded, in order, as the method's plan
+        self.loop_bind = loop_bind
+        self.subst = list(subst)
         self.key, self.path, self.cls, self.py, self.lean = key, path, cls, py, lean
         self.binders, self.fields, self.params = binders, fields, params
         self.statement, self.defs = statement, defs
@@ -1364,14 +1370,31 @@ def run_effects(cu, stmts, ctx, fn, depth=0):
             raise Untranslatable('assignment target %s' % ast.unparse(tgt))
         return run_effects(cu, rest, ctx, fn, depth)
     if isinstance(s, ast.If):
-        c = cu.truth(cu.ev(s.test, ctx, depth))
+        before = set(ctx.known)
+        ctx.in_test = True
+        try:
+            c = cu.truth(cu.ev(s.test, ctx, depth))
+        finally:
+            ctx.in_test = False
+        inside = set(ctx.known)
+        ctx.known = before
         if c[0] == 'blit':
+            if c[1]:
+                ctx.known = inside
             return run_effects(cu, (list(s.body) if c[1] else list(s.orelse)) + rest, ctx, fn, depth)
-        return ('if', c, run_effects(cu, list(s.body) + rest, ctx.copy(), fn, depth), run_effects(cu, list(s.orelse) + rest, ctx.copy(), fn, depth))
+        cb = ctx.copy()
+        cb.known = inside
+        return ('if', c, run_effects(cu, list(s.body) + rest, cb, fn, depth), run_effects(cu, list(s.orelse) + rest, ctx.copy(), fn, depth))
     if isinstance(s, ast.Return):
         return ('ret', None, ctx)
     if isinstance(s, ast.Raise):
         return ('raise', 'ValueError', ctx)
+    if isinstance(s, ast.For):
+        if fn.loop_bind is None or s.orelse:
+            raise Untranslatable('loop')
+        c2 = ctx.copy()
+        cu.bind_pattern(s.target, fn.loop_bind, c2)
+        return run_effects(cu, list(s.body), c2, fn, depth)      # one iteration; what follows the loop is not part of the plan
     if isinstance(s, ast.Expr) and isinstance(s.value, ast.Call):
         ftxt = ast.unparse(s.value.func)
         if ftxt == '%s.%s.append' % (ctx.self_name, fn.event_attr) and len(s.value.args) == 1:
@@ -1382,6 +1405,10 @@ def run_effects(cu, stmts, ctx, fn, depth=0):
                 raise Untranslatable('two events appended')
             ctx.fields['__event__'] = ev
             return run_effects(cu, rest, ctx, fn, depth)
+        for suf, tag in fn.action_calls:
+            if ftxt.endswith(suf):
+                ctx.fields['__actions__'] = tuple(ctx.fields.get('__actions__') or ()) + (tag,)
+                return run_effects(cu, rest, ctx, fn, depth)
         for suf, flag in fn.raise_calls:
             if ftxt.endswith(suf):
                 c2 = ctx.copy()
@@ -1427,6 +1454,51 @@ def translate_efn(fn):
         return None, str(e)
     except (RecursionError, KeyError, IndexError) as e:
         return None, 'translator limit: %s' % type(e).__name__
+
+
+def translate_plan(fn):
+    """the ordered list of component calls one iteration of a loop makes, as a function of the branch conditions"""
+    try:
+        cu = ClassUnit(fn.path, fn.cls, {a: ty_of(v) for a, v in fn.fields.items()}, fn.obj_types)
+        cu.call_subst = list(fn.subst)
+        if fn.py not in cu.methods:
+            raise Untranslatable('method %s.%s not found' % (fn.cls, fn.py))
+        m = cu.methods[fn.py]
+        fields = dict(fn.fields)
+        fields['__event__'] = None
+        fields['__actions__'] = ()
+        ctx = Ctx(cu, dict(fields), {p: v for p, v in fn.params})
+        for a in m.args.args[1:]:
+            ctx.locs.setdefault(a.arg, ('opaque', 'parameter %s' % a.arg))
+        tree = run_effects(cu, list(m.body), ctx, fn)
+
+        def leaf(t):
+            if t[0] == 'raise':
+                raise Untranslatable('raise inside the loop body')
+            for a, v0 in fn.fields.items():
+                if t[2].fields[a] is not v0:
+                    raise Untranslatable('attribute write inside the loop body')
+            return '[' + ', '.join(json.dumps(x) for x in (t[2].fields.get('__actions__') or ())) + ']'
+        binders = ''.join(' (%s : %s)' % b for b in fn.binders)
+        return 'def %s%s : List String :=\n  %s\n' % (fn.lean.split('.')[-1], binders, pr_tree(tree, leaf, 1)), None
+    except Untranslatable as e:
+        return None, str(e)
+    except (RecursionError, KeyError, IndexError) as e:
+        return None, 'translator limit: %s' % type(e).__name__
+
+
+EVENT_OBJ = dict(Event=dict(ts=(lambda base: V('t', 'int'), 'int'), event_type=(lambda base: V('kind', 'str'), 'str')))
+PLAN = EFn('Session.plan', 'qstrader/trading/backtest.py', 'BacktestTradingSession', 'run', 'Session.plan',
+           binders=[('sigs', 'Option Unit'), ('burn', 'Option Int'), ('t', 'Int'), ('kind', 'String'), ('inSched', 'Bool')],
+           fields=dict(signals=V('sigs', 'optobj'), burn_in_dt=V('burn', 'optint')), params=[('results', ('opaque', 'the results flag'))],
+           obj_types=EVENT_OBJ, loop_bind=V('ev', 'obj:Event'),
+           subst=[('_is_rebalance_event', _const_subst(V('inSched', 'bool')))],
+           action_calls=[('broker.update', 'broker'), ('signals.update', 'signals'), ('self.qts', 'qts'), ('_update_equity_curve', 'equity')],
+           statement='(cfg : Qs.SessionCfg α) (sched : List Int) (s : Qs.Session α) (ev : Qs.SimEvent) :\n'
+                     '    GEN (s.signals.map fun _ => ()) cfg.burnIn ev.time ev.kind.name (sched.contains ev.time) =\n'
+                     '      ["broker"] ++ (if s.signals.isSome && decide (ev.kind = .marketClose) then ["signals"] else []) ++\n'
+                     '      (if Qs.Sess.isReb cfg sched ev.time then ["qts"] else []) ++ (if Qs.Sess.isEq cfg ev then ["equity"] else [])',
+           defs=['Qs.Sess.isReb', 'Qs.Sess.isEq', 'Qs.burnOk', 'Qs.EvKind.name'])
 
 
 PEVENT = ForeignClass('qstrader/broker/portfolio/portfolio_event.py', 'PortfolioEvent',
@@ -1674,6 +1746,40 @@ def generate(outdir=None, verbose=False, omit_defs=(), omit_thms=()):
     tie += 'end Qs.Tie\n'
     _write_if_changed(os.path.join(outdir, 'QsGen', 'Kernels.lean'), gen)
     _write_if_changed(os.path.join(outdir, 'QsProofs', 'Tie', 'KernelsGen.lean'), tie)
+    # the session loop's plan
+    fn = PLAN
+    text, why = translate_plan(fn)
+    gen = ('/-\n  GENERATED by harness/translate.py from %s — do not edit.\n  Which components one iteration of '
+           '`BacktestTradingSession.run` calls, in order.\n-/\n\nnamespace Qs.Gen\n\nnamespace Session\n\n' % fn.path)
+    tie = ('/-\n  GENERATED by harness/translate.py — the plan of one loop iteration equals the stages of `Session.step`.\n-/\n'
+           'import QsGen.Plan\nimport QsProofs.Tie.Tactic\nimport QsProofs.Lemmas.Session\n\nset_option linter.unusedTactic false\n'
+           'set_option linter.unreachableTactic false\nset_option linter.unusedSectionVars false\nset_option linter.unusedSimpArgs false\n'
+           'set_option linter.unusedVariables false\n\nopen NumOps Num\n\nnamespace Qs.Tie\n\n'
+           'variable {α : Type} [Add α] [Sub α] [Mul α] [Div α] [Neg α] [NumOps α]\n\n')
+    if text is not None and fn.key in omit_defs:
+        text, why = None, 'the generated definition does not typecheck'
+    if text is None:
+        status[fn.key] = dict(translated=False, reason=why, python='%s.%s' % (fn.cls, fn.py), file=fn.path, unit='Plan')
+        gen += '-- %s.%s: not translatable (%s)\n\n' % (fn.cls, fn.py, why)
+    else:
+        g0 = gen.count('\n') + 1
+        gen += '/-- plan of one iteration of `%s.%s` -/\n%s\n' % (fn.cls, fn.py, text)
+        full = 'Qs.Tie.tie_Session_plan'
+        ent = dict(translated=True, python='%s.%s' % (fn.cls, fn.py), file=fn.path, unit='Plan', theorem=full, def_span=[g0, gen.count('\n')])
+        if full in omit_thms:
+            ent['proved'] = False
+            tie += '-- tie_Session_plan: the proof does not check against the current source\n\n'
+        else:
+            t0 = tie.count('\n') + 1
+            tie += ('theorem tie_Session_plan %s := by\n  rcases ev with ⟨t, k⟩\n  cases k <;> cases hs : s.signals <;> cases hb : cfg.burnIn <;> '
+                    'cases hc : sched.contains t <;>\n    simp [Qs.Gen.Session.plan, %s, hs, hb, hc] <;> (try split_ifs) <;> simp_all <;> omega\n\n' % (
+                        fn.statement.replace('GEN', 'Qs.Gen.' + fn.lean), ', '.join(fn.defs)))
+            ent['thm_span'] = [t0, tie.count('\n')]
+        status[fn.key] = ent
+    gen += 'end Session\n\nend Qs.Gen\n'
+    tie += 'end Qs.Tie\n'
+    _write_if_changed(os.path.join(outdir, 'QsGen', 'Plan.lean'), gen)
+    _write_if_changed(os.path.join(outdir, 'QsProofs', 'Tie', 'PlanGen.lean'), tie)
     if verbose:
         for k, v in status.items():
             if '#' not in k:
